@@ -64,14 +64,14 @@ CHECKS = {
     "C17": {
         "engine": "E1+E2/E3+E6",
         "technique": "callback coverage against the shipped grammar tables; context-pruned reachability from the transformer callbacks; explicit-raise closure against KeyError / LarkError subclasses (hierarchy read from _parser.py's AST); interprocedural catch-and-convert rule for int() of unbounded tokens; who-may-write on the registries; memo-key lint",
-        "level_text": "Every grammar rule has a callback; on the functions reachable from the callbacks the only exception classes that can escape through raise statements are KeyError and LarkError subclasses; the three int() conversions of unbounded digit tokens are caught and re-raised as ParseError (one fix: commit), and a table of other library calls that are partial on text (unicodedata.name, Decimal, next, str.index ...) is applied to the parser zone; a bare builtin magnitude callback must be fed by Lark's standard number terminal (R17.6); no reachable function writes a name/symbol registry; magnitudes come from the builtin int/float; no memo on the path is keyed by a number or reads the registries. Lexing/parsing failures inside the embedded Lark runtime are the trusted base.",
+        "level_text": "Every grammar rule has a callback; on the functions reachable from the callbacks the only exception classes that can escape through raise statements are KeyError and LarkError subclasses; the three int() conversions of unbounded digit tokens are caught and re-raised as ParseError (one fix: commit), and a table of other library calls that are partial on text (unicodedata.name, Decimal, next, str.index ...) is applied to the parser zone; a bare builtin magnitude callback must be fed by Lark's standard number terminal (R17.6); no reachable function writes a name/symbol registry or imports a declaring module; magnitudes come from the builtin int/float; no memo on the path is keyed by a number or reads the registries. Lexing/parsing failures inside the embedded Lark runtime are the trusted base.",
         "design_ref": "DESIGN.md section 4, C17",
         "level_note": "Trusted: the embedded Lark runtime raises only LarkError subclasses; mypy call resolution; Any-typed arguments conform to annotations. Not decided: implicit exceptions of builtins outside the partial-call table (float('1e999') is inf).",
     },
     "C19": {
         "engine": "E1+E2+E5",
         "technique": "interprocedural write-then-raise analysis on statement CFGs of the definition entry points (summaries of may-write-naming / may-raise per callee); dominance of raising guards over registry bindings; constructor early-return rule; creation trace and registries from the declaration evaluator under every entry module; memo-over-registry rule",
-        "level_text": "A failing definition leaves the registries untouched iff no raise is reachable after a naming write on any path through the entry point and its callees; a name is never bound to two objects iff every binding is dominated by a raising test and the shipped tables have no duplicates; a declared name survives an earlier anonymous construction iff the declaring constructor registers late names; a rejected constructor call leaves no half-built or prematurely initialised instance in the intern table (R19.7/R19.8, must-assign analysis on the CFG of __init__); no shipped dimension is declared under two names (R19.9); named(name) is the name registry's entry (R19.10); Dimension.scale is an entry point with summaries computed over the context-pruned reachable set. All decided structurally and, for the shipped configuration, exhaustively; discharged after six fix: commits.",
+        "level_text": "A failing definition leaves the registries untouched iff no raise is reachable after a naming write on any path through the entry point and its callees; a name is never bound to two objects iff every binding is dominated by a raising test and the shipped tables have no duplicates; a declared name survives an earlier anonymous construction iff the declaring constructor registers late names; a rejected constructor call leaves no half-built or prematurely initialised instance in the intern table (R19.7/R19.8, must-assign analysis on the CFG of __init__); no shipped dimension is declared under two names (R19.9); named(name) is the name registry's entry (R19.10); no assert in naming functions (R19.11); registries are plain dicts (R19.12); Dimension.scale is an entry point with summaries computed over the context-pruned reachable set. All decided structurally and, for the shipped configuration, exhaustively; discharged after six fix: commits.",
         "design_ref": "DESIGN.md section 4, C19",
         "level_note": "Trusted: mypy call resolution; E5's declaration model. That the intern table keeps an anonymous, fully built instance after a failing definition is accepted (indistinguishable from an earlier anonymous construction); Dimension.scale's translate() guard is infeasible for a fresh unit and is not an entry.",
     },
@@ -85,7 +85,7 @@ CHECKS = {
     "C18": {
         "engine": "E1+E4+E5",
         "technique": "abstract interpretation of LogarithmicUnit.level and Level.quantify to normal forms with ln/exp heads, compared with the logarithmic definition; units-of-measure typing of the log argument; structural rules; declared bases from E5",
-        "level_text": "level() normalises to (k/p)*log_B(val(q)/val(ref)) and quantify() to B**(L*p/k)*ref for symbolic base, prefix, power ratio, reference and units, so the two directions are mutually inverse and the level is increasing for B > 1 (all declared bases are). The log argument is shown dimensionless, the reference unprefixed, k in {1,2} by membership, and Logarithm / LogarithmicUnit are interned under keys that determine their defining arguments exactly (R18.7); membership in ROOT_POWER_DIMENSIONS cannot go stale (R18.8) and the table has no entry written twice (R18.9); a pickle hook on Logarithm/LogarithmicUnit covers its interning key (R18.10).",
+        "level_text": "level() normalises to (k/p)*log_B(val(q)/val(ref)) and quantify() to B**(L*p/k)*ref for symbolic base, prefix, power ratio, reference and units, so the two directions are mutually inverse and the level is increasing for B > 1 (all declared bases are). The log argument is shown dimensionless, the reference unprefixed, k in {1,2} by membership, and Logarithm / LogarithmicUnit are interned under keys that determine their defining arguments exactly (R18.7); membership in ROOT_POWER_DIMENSIONS cannot go stale (R18.8) and the table has no entry written twice (R18.9); a pickle hook on Logarithm/LogarithmicUnit covers its interning key (R18.10); Level.__init__ keeps what it is given (R18.11); Prefix.quantify is base**exponent (R11.2, shared).",
         "design_ref": "DESIGN.md section 4, C18",
         "level_note": E4_NOTE + " Axiom: in_unit value-preserving (C04). Not decided: floating-point rounding.",
     },
@@ -113,14 +113,14 @@ CHECKS = {
     "C15": {
         "engine": "E1+E6+E5",
         "technique": "structural agreement rules between sibling codecs (__getnewargs_ex__ vs __new__ key parameters; __json__ keys vs __from_json__ reads; tag dispatch table; Decimal writer/reader pairing; pickle hook inventory) + the formatter-language inclusion of C13 at the serialisation sites",
-        "level_text": "Writer and reader of each representation are compared as tables extracted from the AST: keys, tags, positions and type conversions must agree, nothing may route a Quantity's unit through text for pickle/copy, the Dimension/Prefix decoders must rebuild from the encoded structural key on every path (R15.7), and no encoder/decoder may be memoised over values whose equality ignores the magnitude type or over the registries (R15.9, R15.10); codecs_installed sets and restores each implicit json hook (R15.11); every interned class with a pickle hook passes all of its interning arguments (R15.1). The stored unit text is str(unit); its language is checked against the parser (three known findings inherited from C13 R13.3 and seven from the symbol-table rule R15.8 = C13 R13.2: a quantity in centi-days decodes as candela; hence 'other').",
+        "level_text": "Writer and reader of each representation are compared as tables extracted from the AST: keys, tags, positions and type conversions must agree, nothing may route a Quantity's unit through text for pickle/copy, the Dimension/Prefix decoders must rebuild from the encoded structural key on every path (R15.7), and no encoder/decoder may be memoised over values whose equality ignores the magnitude type or over the registries (R15.9, R15.10); codecs_installed sets and restores each implicit json hook (R15.11); no decoder writes a registry (R15.12); every interned class with a pickle hook passes all of its interning arguments (R15.1). The stored unit text is str(unit); its language is checked against the parser (three known findings inherited from C13 R13.3 and seven from the symbol-table rule R15.8 = C13 R13.2: a quantity in centi-days decodes as candela; hence 'other').",
         "design_ref": "DESIGN.md section 4, C15",
         "level_note": "Trusted: CPython's pickle/copy/json protocols; E5 tables (every base unit is named). Not decided: equality of decoded float magnitudes; third-party serializers.",
     },
     "C14": {
         "engine": "E1+E4",
         "technique": "abstract interpretation of every Measurement operator to normal forms (rational functions with sqrt/abs heads); symbolic differentiation of the method's own measurand expression; units-of-measure typing of the stored uncertainty",
-        "level_text": "For + - * / ** and the reflected forms, with a Measurement or a plain Quantity on the other side, sigma^2 of the result is normalised and compared with sum((df/dx_i)^2 sigma_i^2), f being the measurand expression of the same method - an identity of rational functions, hence for all magnitudes, uncertainties, units and (symbolic) exponents (sign cases of abs(n) and zero-measurand shortcuts are explored as choice points). Unit typing, absence of spurious singularities and abs() storage are separate armed rules. All obligations are discharged after two fix: commits.",
+        "level_text": "For + - * / ** and the reflected forms, with a Measurement or a plain Quantity on the other side, sigma^2 of the result is normalised and compared with sum((df/dx_i)^2 sigma_i^2), f being the measurand expression of the same method - an identity of rational functions, hence for all magnitudes, uncertainties, units and (symbolic) exponents (sign cases of abs(n) and zero-measurand shortcuts are explored as choice points). Unit typing, absence of spurious singularities, abs() storage, a constructor that keeps what it is given (R14.6) and Quantity operators that step aside for a Measurement operand (R14.7) are separate armed rules. All obligations are discharged after two fix: commits.",
         "design_ref": "DESIGN.md section 4, C14",
         "level_note": E4_NOTE + " Axioms: in_unit value-preserving (C04), Quantity operators as specified (C03/C06). Not decided: floating-point rounding of the verified formulas.",
     },
@@ -141,7 +141,7 @@ CHECKS = {
     "C07": {
         "engine": "E1+E2/E3",
         "technique": "context-pruned reachability from the conversion entry points over the mypy-resolved call graph; assert/__debug__ scan; explicit-raise closure with handler matching; CFG dominance of the visited-set guard; mypy diagnostics as a typed lint in the planner",
-        "level_text": "On the set of functions reachable from convert / in_unit / + / - / == / < (about 60, parser pruned away by call-site specialisation) there is no assert and no __debug__, so -O compiles identical code; the only exception classes that can escape through raise statements are ConversionNotFound (conversion entries) and none (comparison entries); handlers are exact; the path search recursion is bounded by a per-query visited set; in the planner no reduce() runs over a possibly empty sequence no element is taken from a filtered (possibly empty) sequence without an emptiness test, no dict entry is read in a loop that may delete it, and every cycle of the reachable call graph has a stated bound (R07.6). Discharged after one fix: commit replacing four asserts.",
+        "level_text": "On the set of functions reachable from convert / in_unit / + / - / == / < (about 60, parser pruned away by call-site specialisation) there is no assert and no __debug__, so -O compiles identical code; the only exception classes that can escape through raise statements are ConversionNotFound (conversion entries) and none (comparison entries); handlers are exact; the path search recursion is bounded by a per-query visited set; in the planner no reduce() runs over a possibly empty sequence no element is taken from a filtered (possibly empty) sequence without an emptiness test, no dict entry is read in a loop that may delete it, every cycle of the reachable call graph has a stated bound (R07.6), _splat puts every factor on the table (R07.7) and Measurement's comparisons never convert outside a handler (R07.8). Discharged after one fix: commit replacing four asserts.",
         "design_ref": "DESIGN.md section 4, C07",
         "level_note": "Trusted: mypy call resolution; assumption that Any-typed arguments conform to declared annotations. Not decided: implicit KeyError/IndexError from dict/list operations inside the planner's multiset heuristics (inventoried), and whether a possible conversion is found (C04).",
     },
